@@ -63,3 +63,8 @@ claim("C12",
       "All sequences of <= L actions (quick L=4..7, thorough L=5..9) from {tracked edit, clock tick, untracked-origin edit, tracked edit on an unscoped type, remote edit, undo, redo} over txt/rtx/arr/map/nest/xml are executed with a controlled clock and state-matched; an undo/redo that pops k capture steps must reproduce the snapshot k boundaries back when no foreign origin edited in between, a fresh tracked edit clears the redo stack, foreign elements stay visible in order, unscoped types are untouched, and a replica fed only by update events converges after every step.",
       "capture grouping via controlled clock (timeout 10, tick 100); foreign elements identified by unique tags; nested/xml families exempt from the flat foreign-order check",
       "DESIGN.md 4/C12")
+claim("C11",
+      "bounded-exhaustive enumeration of transaction sequences on an observed real document; shadow copies maintained only from the reported edit scripts",
+      "All action sequences with <= L operations (local transactions with every mix of 1..3 ops incl. insert-then-delete, a remote author, E syncing from D, deliveries of E's updates in any order incl. gaps) over txt/rtx/uni/arr/map/nest/xml with Bytes and Utf16 offsets are executed; observers on every root and deep observers on array/map/xml roots evaluate delta()/keys()/path() inside the callback; the shadow of every observer, updated only by applying the scripts (deep events at their paths), must equal the content after every transaction; at most one event per observer and transaction; none for unchanged types (one narrow known finding: empty scripts for transactions without net visible effect).",
+      "direct observers compared shallowly, deep ones fully; old values compared by kind for containers (they are read after the transaction)",
+      "DESIGN.md 4/C11")
